@@ -72,6 +72,8 @@ func (l *loopInfo) invariant(v ssa.Value) bool {
 		return true
 	case *ssa.Convert:
 		return l.invariant(x.X)
+	case *ssa.BinOp:
+		return l.invariant(x.X) && l.invariant(x.Y)
 	case *ssa.Call:
 		if calleeName(&x.Call) == "builtin:len" {
 			return l.invariant(x.Call.Args[0])
@@ -261,7 +263,7 @@ func classifyLoop(l *loopInfo) loopClass {
 }
 
 func isCASCall(n string) bool {
-	return strings.HasSuffix(n, ").CompareAndSwap") || n == "(*internal/counter.counterState).update" || n == "(*internal/counter.mappedFile).cas32" ||
+	return strings.Contains(n, ").CompareAndSwap") || n == "(*internal/counter.counterState).update" || n == "(*internal/counter.mappedFile).cas32" ||
 		strings.HasPrefix(n, "sync/atomic.CompareAndSwap")
 }
 
